@@ -190,6 +190,11 @@ def run(tier: str) -> int:
         want = z * np.sqrt(at.get_masses() * kB * T)[:, None]
         nmb += 1
         rep.count(("mb", trial))
+        if ctx.rng.scripts.get("standard_normal"):
+            # the refresh did not ask its generator for standard normals: the scripted layer does not apply
+            # (the moments of the refreshed momenta are judged below whatever the sampling method)
+            ctx.rng.scripts.clear()
+            continue
         if not np.allclose(at.get_momenta(), want, rtol=4e-16, atol=0):
             rep.violation("refresh:not-z-sqrt-m-kT", f"momenta after the refresh are not z*sqrt(m kT) for the normals drawn from the simulation's generator (max rel. dev. {np.max(np.abs(at.get_momenta() / want - 1)):.2e})", {"T": T})
         ctx.rng.script("standard_normal", -z)
